@@ -46,20 +46,30 @@ def run(ctx, progs):
             ok = root.self_adt == EXCL and root.name == "replace"
             ctx.ob("R11.1.only_replace_stores", f"{b.key}|{canon(c.target).split('::')[-1]}", ok, c.where(),
                    "ArcSwap writer call" + ("" if ok else " outside GuestMemoryExclusiveGuard::replace: a store that does not hold the update lock can lose a replacement"))
+        DIRECT = C("ArcSwapAny::load", F(C("Deref::deref", F(P(1), "inner")), "0"))
+        mem_bodies = prog.find(adt=ATOM, trait="guest_memory::GuestAddressSpace", name="memory")
         for b, c in loads:
             root = prog.by_id.get(b.root, b)
-            ok = root.self_adt == ATOM and root.name == "load"
+            # the one place a snapshot is taken: the private load() helper, or memory() itself when the helper is inlined
+            ok = root.self_adt == ATOM and (root.name == "load" or (root in mem_bodies and canon(c.target).split("::")[-1] == "load"))
             ctx.ob("R11.1.only_load_loads", f"{b.key}|{canon(c.target).split('::')[-1]}", ok, c.where(), "ArcSwap load call site")
-        b = prog.one(adt=ATOM, name="load")
-        rt = b.return_terms()
-        ok = len(rt) == 1 and match(C("ArcSwapAny::load", F(C("Deref::deref", F(P(1), "inner")), "0")), deep_strip(rt[0][1]), {})
-        ctx.ob("R11.1.load_is_one_load", b.key, ok, b.where(), f"load() = self.inner.0.load(): `{tstr(deep_strip(rt[0][1])) if rt else '?'}`")
-        bs = prog.find(adt=ATOM, trait="guest_memory::GuestAddressSpace", name="memory")
-        for b in bs:
+        hb = prog.find(adt=ATOM, name="load")
+        if len(hb) == 1:
+            b = hb[0]
             rt = b.return_terms()
-            ok = len(rt) == 1 and match(AGG(LOADG, None, C("GuestMemoryAtomic::load", P(1))), deep_strip(rt[0][1]), {})
-            n_loads = sum(1 for c in b.calls() if canon(c.target or "").endswith("GuestMemoryAtomic::load"))
-            ctx.ob("R11.1.snapshot_is_one_load", b.key, ok and n_loads == 1, b.where(), f"memory() builds the guard from exactly one load ({n_loads})")
+            ok = len(rt) == 1 and match(DIRECT, deep_strip(rt[0][1]), {})
+            ctx.ob("R11.1.load_is_one_load", b.key, ok, b.where(), f"load() = self.inner.0.load(): `{tstr(deep_strip(rt[0][1])) if rt else '?'}`")
+        elif len(hb) > 1:
+            ctx.ob("R11.1.load_is_one_load", ATOM + "::load", False, "", f"{len(hb)} bodies named load")
+        if not mem_bodies:
+            ctx.ob("R11.1.snapshot_is_one_load", ATOM + "::memory", False, "", "anchor body not found (fail closed)")
+        for b in mem_bodies:
+            rt = b.return_terms()
+            ok = len(rt) == 1 and match(AGG(LOADG, None, ALT(C("GuestMemoryAtomic::load", P(1)), DIRECT)), deep_strip(rt[0][1]), {})
+            n_loads = sum(1 for c in b.calls() if canon(c.target or "").endswith("GuestMemoryAtomic::load") or LOADS.search(canon(c.target or "")))
+            ctx.ob("R11.1.snapshot_is_one_load", b.key, ok and n_loads == 1, b.where(), f"memory() builds the guard from exactly one load of self.inner.0 ({n_loads})")
+            if not hb:
+                ctx.ob("R11.1.load_is_one_load", b.key, ok and n_loads == 1, b.where(), "no separate load() helper: memory() itself performs the single self.inner.0.load()")
         # ------------------------------------------------------------ R11.2 replace: store before unlock
         b = prog.one(adt=EXCL, name="replace")
         sig = b.j.get("sig", "")
@@ -98,7 +108,9 @@ def run(ctx, progs):
         ctx.floor("R11.3.guard_aggregates", len(aggs), 2)
         for b2, pos, s in aggs:
             root = prog.by_id.get(b2.root, b2)
-            f = dict(zip(s["rv"]["fields"], [unref(b2.term(o, pos)) for o in s["rv"]["ops"]]))
+            # `match lock() { Ok(g) => .., Err(e) => .. }` and `lock().map(|g| ..).map_err(|e| ..)` build the same guards: read the
+            # fields in the term space of lock() itself
+            f = dict(zip(s["rv"]["fields"], [unref(eff.in_parent(b2, b2.term(o, pos))[1]) for o in s["rv"]["ops"]]))
             lock = C("Mutex::lock", F(C("Deref::deref", F(P(1), "inner")), "1"))
             g = f.get("_guard")
             g_ok = g is not None and (match(OKP(lock), g, {}) or match(C("PoisonError::into_inner", ANY), g, {}) and any(match(lock, x, {}) for x in subterms(g)))
